@@ -85,3 +85,15 @@ Example c01_flox_example :
   map (flox_kernel ONanmax (Fin (-99)) [2; 0; 2; 1; 0] [NaN; NInf; Fin 3; NaN; NaN]) [0; 1; 2; 3]
   = [NInf; Fin (-99); Fin 3; Fin (-99)].
 Proof. reflexivity. Qed.
+
+Lemma reducers_are_numpy :
+  forall l,
+    kern OSum l = np_sum l /\ kern OProd l = np_prod l /\
+    kern ONansum l = np_sum (dropnan l) /\ kern ONanprod l = np_prod (dropnan l) /\
+    kern OAll l = np_all l /\ kern OAny l = np_any l /\
+    (l <> [] -> kern OMax l = np_max l /\ kern OMin l = np_min l) /\
+    (dropnan l <> [] -> kern ONanmax l = np_nanmax l /\ kern ONanmin l = np_nanmin l).
+Proof.
+  intros l. repeat split; auto using kern_sum_np, kern_prod_np, kern_nansum_np, kern_nanprod_np,
+    kern_all_np, kern_any_np, kern_max_np, kern_min_np, kern_nanmax_np, kern_nanmin_np.
+Qed.
